@@ -475,7 +475,14 @@ fn count_bp_bits(bp_words: &[u64]) -> usize {
     let total_ones: usize = bp_words.iter().map(|w| w.count_ones() as usize).sum();
     // Each node has one open and one close, so total bits = opens + closes = 2 * opens
     // But this is approximate - the actual length should be tracked during build
-    total_ones * 2
+    //
+    // For a malformed document with unclosed containers (`[[[[...`) fewer
+    // closes were written than opens, so `2 * opens` can exceed the bits
+    // physically present; `BalancedParens` bounds its probes by this length
+    // only (`is_open`, `first_child`) and would index past the last word.
+    // Never claim more bits than the words hold. A balanced document always
+    // has all `2 * opens` bits written, so this changes nothing for it.
+    (total_ones * 2).min(bp_words.len() * 64)
 }
 
 // ============================================================================
